@@ -883,9 +883,7 @@ class Model:
         self: :class:`.Model`
             The same model object with the added term(s).
         """
-        if isinstance(other, NegatedIntercept):
-            return self - Intercept()
-        elif isinstance(other, (Term, GroupSpecificTerm, Intercept)):
+        if isinstance(other, (Term, GroupSpecificTerm, Intercept, NegatedIntercept)):
             return self.add_term(other)
         elif isinstance(other, type(self)):
             for term in other.terms:
@@ -913,7 +911,10 @@ class Model:
                 if term in self.group_terms:
                     self.group_terms.remove(term)
             return self
-        elif isinstance(other, (Term, Intercept)):
+        elif isinstance(other, Intercept):
+            # Same as adding '0': the removal is remembered if there is no intercept (yet)
+            return self.add_term(NegatedIntercept())
+        elif isinstance(other, Term):
             if other in self.common_terms:
                 self.common_terms.remove(other)
             return self
@@ -1123,6 +1124,18 @@ class Model:
                 self.group_terms.append(term)
             return self
         elif isinstance(term, (Term, Intercept)):
+            if isinstance(term, Intercept) and NegatedIntercept() in self.common_terms:
+                # '1' written after '0' or '-1': the last one wins
+                self.common_terms.remove(NegatedIntercept())
+            if term not in self.common_terms:
+                self.common_terms.append(term)
+            return self
+        elif isinstance(term, NegatedIntercept):
+            # '0' or '-1': remove the intercept if it is there and keep the negated intercept as a
+            # marker, so that '|' knows it must not add the implicit group intercept. Markers left
+            # in a final model are dropped by model_description.
+            if Intercept() in self.common_terms:
+                self.common_terms.remove(Intercept())
             if term not in self.common_terms:
                 self.common_terms.append(term)
             return self
